@@ -15,37 +15,113 @@ Definition src_params : shell_params :=
 Theorem C17_src_params_ok : params_ok src_params = true.
 Proof. exact (eq_refl true). Qed.
 
-(* one variable: for every valid name and every byte string without NUL as value *)
-Theorem C17_shell_faithful : forall k v : string, valid_name k = true -> no_nul v = true ->
+(* ---- the full statement and where it stops ------------------------------------------------------------------------
+   "The shell rendering ... when evaluated, exports each scalar entry of environmentVariables with exactly its value
+   and has no other effect", for every valid name.  Two things stand between the code and this statement, and both
+   are written into the theorem names below (nothing is excluded silently):
+   (1) NAMES THE INTERPRETER ITSELF TREATS SPECIALLY (Model.Shell.dash_special / bash_special / mvdan_special,
+       measured and re-measured in every run): no quoting can make `export UID=...` succeed in bash.  [sh_eval_in sp]
+       is the reading of a script by an interpreter with special names [sp]; [_refuted] exhibits bash and UID,
+       [_partial] holds for EVERY list [sp] and every name outside it (so for each of the three interpreters, and
+       with [sp = []] for the reading of POSIX itself, where no variable is read-only: [_posix]).  A limit of the
+       target shells, not a defect of esc: documented (lib/verif/props/c17.py ASSUMPTIONS), not a known finding.
+   (2) A KEY THAT IS BOTH A VARIABLE AND A FILE (known finding C17-file-shadows-variable, class
+       Model.Shell.kf_file_shadows): the file's path wins. *)
+
+(* the commands pass to renderValue, and renderValue to PrepareEnvironment, the flags under which the theorems below
+   are read: `esc env get --value F` = (pretend, show --show-secrets), `esc open --format F` = (write the files, show);
+   PrepareOptions{Pretend: pretend, Quote: true, [Shell: true,] Redact: !showSecrets} (read from env_get.go / env_open.go
+   on this run; the correspondence observes the same through the real commands) *)
+Theorem C17_src_callers_ok :
+  (get_render_pretend, get_render_show_is_the_flag, open_render_pretend, open_render_show,
+   render_shell_options_ok, render_dotenv_options_ok) = (true, true, false, true, true, true).
+Proof. exact (eq_refl (true, true, false, true, true, true)). Qed.
+
+(* one variable *)
+Theorem C17_shell_faithful_refuted :
+  exists sp k v, In sp interpreters /\ valid_name k = true /\ no_nul v = true
+                 /\ sh_eval_in sp (render_shell src_params [(k, v)]) <> Exports [(k, v)].
+Proof. exact (shell_faithful_refuted src_params C17_src_params_ok). Qed.
+
+Theorem C17_shell_faithful_partial : forall (sp : list string) (k v : string),
+  valid_name k = true -> mem_str k sp = false -> no_nul v = true ->
+  sh_eval_in sp (render_shell src_params [(k, v)]) = Exports [(k, v)].
+Proof. exact (fun sp => shell_faithful_in src_params sp C17_src_params_ok). Qed.
+
+(* the reading of POSIX itself (no special names): every valid name, every byte string without NUL *)
+Theorem C17_shell_faithful_posix : forall k v : string, valid_name k = true -> no_nul v = true ->
   sh_eval (render_shell src_params [(k, v)]) = Exports [(k, v)].
 Proof. exact (shell_faithful src_params C17_src_params_ok). Qed.
 
 (* any number of variables *)
-Theorem C17_shell_faithful_list : forall l : list (string * string), forallb pair_ok l = true ->
+Theorem C17_shell_faithful_list_partial : forall (sp : list string) (l : list (string * string)),
+  forallb (pair_ok_in sp) l = true -> sh_eval_in sp (render_shell src_params l) = Exports l.
+Proof. exact (fun sp => shell_faithful_list_in src_params sp C17_src_params_ok). Qed.
+
+Theorem C17_shell_faithful_list_posix : forall l : list (string * string), forallb pair_ok l = true ->
   sh_eval (render_shell src_params l) = Exports l.
 Proof. exact (shell_faithful_list src_params C17_src_params_ok). Qed.
 
 (* the whole command: `esc open --format shell` (redact = pretend = false) and `esc env get --value shell`
-   (pretend = true), for any environmentVariables / files objects and any file-system naming of temporary files *)
-Theorem C17_script_faithful :
+   (pretend = true), for any environmentVariables / files objects and any file-system naming of temporary files.
+   Key collisions between the two objects are NOT excluded here: the script exports the pairs in this order. *)
+Theorem C17_script_faithful_refuted :
+  exists sp vars, In sp interpreters /\ forallb entry_ok vars = true
+    /\ sh_eval_in sp (shell_script src_params false false (fun _ => "") vars [])
+       <> Exports (env_pairs src_params false false (fun _ => "") vars []).
+Proof. exact (shell_script_faithful_refuted src_params C17_src_params_ok). Qed.
+
+Theorem C17_script_faithful_partial :
+  forall (sp : list string) (redact pretend : bool) (path_of : nat -> string) (vars files : list entry),
+  forallb (entry_ok_in sp) vars = true -> forallb (entry_ok_in sp) files = true ->
+  (forall i, no_nul (path_of i) = true) ->
+  sh_eval_in sp (shell_script src_params redact pretend path_of vars files)
+  = Exports (env_pairs src_params redact pretend path_of vars files).
+Proof. exact (fun sp r pr po vs fs => shell_script_faithful_in src_params sp r pr po vs fs C17_src_params_ok). Qed.
+
+Theorem C17_script_faithful_posix :
   forall (redact pretend : bool) (path_of : nat -> string) (vars files : list entry),
   forallb entry_ok vars = true -> forallb entry_ok files = true -> (forall i, no_nul (path_of i) = true) ->
   sh_eval (shell_script src_params redact pretend path_of vars files)
   = Exports (env_pairs src_params redact pretend path_of vars files).
 Proof. exact (fun r pr po vs fs => shell_script_faithful src_params r pr po vs fs C17_src_params_ok). Qed.
 
-(* ... and in the resulting environment every scalar entry of environmentVariables has exactly its value
-   (hidden secrets: the placeholder) *)
-Theorem C17_exports_each_variable :
-  forall (redact pretend : bool) (path_of : nat -> string) (vars files : list entry) (e : entry) (t : string),
-  forallb entry_ok vars = true -> forallb entry_ok files = true -> (forall i, no_nul (path_of i) = true) ->
-  NoDup (map e_key vars) -> ~ In (e_key e) (map e_key files) ->
+(* ... and in the resulting environment every scalar entry of environmentVariables has exactly its value (hidden
+   secrets: the placeholder).  FULL statement: for every entry [e] of [vars].  Refuted by a key that is also a scalar
+   entry of `files` (even in the POSIX reading): known finding C17-file-shadows-variable ... *)
+Theorem C17_exports_each_variable_refuted :
+  exists (redact pretend : bool) (path_of : nat -> string) (vars files : list entry) (e : entry) (t : string),
+    forallb entry_ok vars = true /\ forallb entry_ok files = true /\ (forall i, no_nul (path_of i) = true)
+    /\ NoDup (map e_key vars) /\ NoDup (map e_key files) /\ In e vars /\ scalar_text src_params e = Some t
+    /\ kf_file_shadows src_params vars files = true
+    /\ ~ (exists l, sh_eval (shell_script src_params redact pretend path_of vars files) = Exports l
+                    /\ sh_lookup (e_key e) l = Some (if e_secret e && redact then sp_secret src_params else t)).
+Proof. exact (shell_exports_each_var_refuted src_params C17_src_params_ok). Qed.
+
+(* ... and proved for every entry that no scalar entry of `files` shadows, in every interpreter *)
+Theorem C17_exports_each_variable_partial :
+  forall (sp : list string) (redact pretend : bool) (path_of : nat -> string) (vars files : list entry) (e : entry)
+         (t : string),
+  forallb (entry_ok_in sp) vars = true -> forallb (entry_ok_in sp) files = true ->
+  (forall i, no_nul (path_of i) = true) ->
+  NoDup (map e_key vars) -> shadowed src_params files (e_key e) = false ->
   In e vars -> scalar_text src_params e = Some t ->
-  exists l, sh_eval (shell_script src_params redact pretend path_of vars files) = Exports l
+  exists l, sh_eval_in sp (shell_script src_params redact pretend path_of vars files) = Exports l
             /\ sh_lookup (e_key e) l = Some (if e_secret e && redact then sp_secret src_params else t).
 Proof.
-  exact (fun r pr po vs fs e t => shell_exports_each_var src_params r pr po vs fs e t C17_src_params_ok).
+  exact (fun sp r pr po vs fs e t => shell_exports_each_var_partial src_params sp r pr po vs fs e t C17_src_params_ok).
 Qed.
+
+(* the measured lists: what is and what is not special (non-vacuity of the exclusion, and its tightness for the names
+   the audit asked about: IFS, PATH, PS1, PWD, OLDPWD, SHLVL are ordinary in all three interpreters; UID is not in
+   bash and mvdan.cc/sh, `_` and RANDOM are not in bash) *)
+Example C17_special_names :
+  forallb portable_name ["IFS"; "PATH"; "PS1"; "PWD"; "OLDPWD"; "SHLVL"; "HOME"; "DB_PASSWORD"] = true
+  /\ map (mem_str "UID") interpreters = [false; true; true]
+  /\ map (mem_str "_") interpreters = [false; true; false]
+  /\ map (mem_str "RANDOM") interpreters = [false; true; false]
+  /\ map (mem_str "OPTIND") interpreters = [true; true; false].
+Proof. exact (conj eq_refl (conj eq_refl (conj eq_refl (conj eq_refl eq_refl)))). Qed.
 
 (* the rendering before the repair (strconv.Quote for --format shell) violates the property *)
 Theorem C17_old_quoting_refuted :
